@@ -963,11 +963,11 @@ def build_fgg_fx_shifted(am, dtype, shift):
     return g
 
 
-def build_fgg_fx(ag, kind, dtype):
+def build_fgg_fx(ag, kind, dtype, **build_opts):
     """real FGG for a grid grammar: weights wfx/1024 (real) or their logarithms (log)"""
     import torch
     a2 = dict(ag)
-    g, info = build_fgg(dict(ag, w={t: [0] * len(v) for t, v in ag['wfx'].items()}), 'real', dtype)
+    g, info = build_fgg(dict(ag, w={t: [0] * len(v) for t, v in ag['wfx'].items()}), 'real', dtype, **build_opts)
     for t, vals in ag['wfx'].items():
         fl = [v / FXS for v in vals]
         if kind == 'log':
